@@ -502,18 +502,32 @@ class Extractor:
                 if k >= len(cl_pos):
                     raise ExtractError(f'fn {name}: closure ordinal {k} not found ({len(cl_pos)} closures)')
                 p_open, p_close, b_start, b_end, is_block = cl_pos[k]
-                have = [closure_param_name(x) for x in split_top(body[p_open + 1:p_close]) if x.strip()]
-                want = [closure_param_name(x) for x in split_top(cl['params']) if x.strip()]
-                if have != want:
-                    raise ExtractError(f'fn {name}: closure {k} has parameters {have}, the unit expects {want}')
+                bind = cl.get('bind')
+                if bind:
+                    # rule F2: a closure parameter that is a PATTERN is bound by `let PATTERN = <parameter>;` at the top of the body
+                    # (the meaning of parameter patterns; Verus accepts only plain variables as closure parameters)
+                    if norm_ws(body[p_open + 1:p_close]) != norm_ws(bind):
+                        raise ExtractError(f'fn {name}: closure {k} has parameters {norm_ws(body[p_open + 1:p_close])!r}, the unit expects the pattern {bind!r}')
+                    pname = closure_param_name(cl['params'])
+                    let = ' let ' + bind + ' = ' + pname + ';'
+                else:
+                    have = [closure_param_name(x) for x in split_top(body[p_open + 1:p_close]) if x.strip()]
+                    want = [closure_param_name(x) for x in split_top(cl['params']) if x.strip()]
+                    if have != want:
+                        raise ExtractError(f'fn {name}: closure {k} has parameters {have}, the unit expects {want}')
+                    let = ''
                 dels.append((p_open + 1, p_close, cl['params']))
                 spec = ' -> (' + cl['ret'] + ')\n' + cl['spec'].rstrip('\n') + '\n'
                 if is_block:
                     inserts.append((b_start, spec, True))
+                    if let:
+                        inserts.append((b_start + 1, let, True))
                 else:
-                    inserts.append((b_start, spec + '{ ', True))
+                    inserts.append((b_start, spec + '{' + let + ' ', True))
                     inserts.append((b_end, ' }', True))
                 rules.append(('E5', f'closure {k} contract', norm_ws(cl['params'] + ' -> ' + cl['ret'])[:80]))
+                if bind:
+                    rules.append(('F2', f'closure {k}: parameter pattern bound by let', norm_ws(bind)[:80]))
             dels.sort(key=lambda d: (d[0], d[1]))
         # combine deletions and insertions
         pos = 0
@@ -663,9 +677,13 @@ def build_unit(template_path, repo_root, vacuity=False):
                 elif m2 and m2.group(1) == 'CLOSURE':
                     # //@CLOSURE k | typed parameter list | ret: Type      (following lines: requires / ensures)
                     cp = [x.strip() for x in m2.group(2).split('|')]
-                    if len(cp) != 3:
-                        raise ExtractError(f'{template_path}:{i+1}: CLOSURE needs "k | params | ret: Type"')
+                    if len(cp) not in (3, 4):
+                        raise ExtractError(f'{template_path}:{i+1}: CLOSURE needs "k | params | ret: Type [| bind=PATTERN]"')
                     closures[int(cp[0])] = dict(params=cp[1], ret=cp[2], lines=[])
+                    if len(cp) == 4:
+                        if not cp[3].startswith('bind='):
+                            raise ExtractError(f'{template_path}:{i+1}: CLOSURE: 4th field must be bind=PATTERN')
+                        closures[int(cp[0])]['bind'] = cp[3][5:].strip()
                     cur = closures[int(cp[0])]['lines']
                 elif m2:
                     raise ExtractError(f'{template_path}:{i+1}: directive inside FN block')
